@@ -54,10 +54,11 @@ static Box gen_box(vfh::Rng &r, int kind) {
   B.m(0, 0) = ax; B.m(1, 1) = by; B.m(2, 2) = cz;
   if (kind == 2) {
     auto tilt = [&](double lim) {
-      int c = (int)r.range(0, 9);
+      int c = (int)r.range(0, 11);
       if (c == 0) return 0.5 * lim;  // boundary values of the reduction conditions
       if (c == 1) return -0.5 * lim;
-      if (c == 2) return 0.0;
+      if (c == 2 || c == 3) return 0.0;  // sparse tilt patterns (only one or two of the three tilts non-zero)
+      if (c == 4 || c == 5) return (r.coin() ? 1 : -1) * r.logu(1e-14, 1e-3) * lim;  // weakly tilted cells
       return r.uni(-0.5, 0.5) * lim;
     };
     B.m(0, 1) = tilt(ax);  // b_x
